@@ -85,6 +85,12 @@ func translate(P *Program, fn *ssa.Function, ct *Contract, disabled map[string]b
 	for i, p := range fn.Params {
 		v := tr.freshVal(p.Type(), "p_"+p.Name())
 		tr.heapClosure(entry, shape(p.Type()), v)
+		for li, l := range shape(p.Type()) {
+			switch l.kind {
+			case "ptr.reg", "sl.reg", "if.reg":
+				tr.regionRank[v[li]] = 0
+			}
+		}
 		if i == 0 && fn.Signature.Recv() != nil && isPtr(p.Type()) {
 			tr.assume(f.Neq(v[0], f.BVi(64, 0)), "method receiver is non-nil")
 			tr.trust("method receivers are non-nil")
@@ -203,29 +209,50 @@ func translate(P *Program, fn *ssa.Function, ct *Contract, disabled map[string]b
 	if ct != nil {
 		top := &Frame{fn: fn, prefix: "", contract: ct, reach: map[*ssa.BasicBlock]*Term{}, callOrd: map[string]int{}}
 		tr.frames = append(tr.frames, top)
-		env := mkEnv(exit, entry)
-		bindResults(env, fn.Signature, vals)
-		// captured variables at exit / entry
-		for i, fv := range fn.FreeVars {
-			if pt, ok := fv.Type().Underlying().(*types.Pointer); ok {
-				ls := shape(pt.Elem())
-				env.vars[fv.Name()] = EVal{V: tr.loadLeaves(exit, ls, bind[i][0], bind[i][1]), T: pt.Elem()}
-			} else {
-				env.vars[fv.Name()] = EVal{V: bind[i], T: fv.Type()}
-			}
-		}
 		pos := fn.Pos()
+		// one environment per return site: postconditions are checked return by return (error returns usually fold away)
+		type retEnv struct {
+			cond *Term
+			env  *Env
+		}
+		var renvs []retEnv
+		rets := tr.topRets
+		if len(rets) == 0 {
+			rets = []retInfo{{cond: ret, vals: vals, st: exit}}
+		}
+		for _, r := range rets {
+			env := mkEnv(r.st, entry)
+			bindResults(env, fn.Signature, r.vals)
+			for i, fv := range fn.FreeVars {
+				if pt, ok := fv.Type().Underlying().(*types.Pointer); ok {
+					ls := shape(pt.Elem())
+					env.vars[fv.Name()] = EVal{V: tr.loadLeaves(r.st, ls, bind[i][0], bind[i][1]), T: pt.Elem()}
+				} else {
+					env.vars[fv.Name()] = EVal{V: bind[i], T: fv.Type()}
+				}
+			}
+			renvs = append(renvs, retEnv{r.cond, env})
+		}
 		for i, e := range ct.Ensures {
-			t, err := env.EvalBool(e.Expr)
-			if err != nil {
-				tr.specError(e, err)
+			var conj []*Term
+			failed := false
+			for _, re := range renvs {
+				t, err := re.env.EvalBool(e.Expr)
+				if err != nil {
+					tr.specError(e, err)
+					failed = true
+					break
+				}
+				conj = append(conj, f.Implies(re.cond, t))
+			}
+			if failed {
 				continue
 			}
 			lbl := e.Label
 			if lbl == "" {
 				lbl = fmt.Sprint(i)
 			}
-			tr.obligeAt("post", lbl, pos, ret, t, "postcondition: "+e.Src)
+			tr.obligeAt("post", lbl, pos, f.True(), f.And(conj...), "postcondition: "+e.Src)
 		}
 		if ct.ModSet {
 			tr.frameObligations(mkEnv(entry, entry), ct, entry, exit, ret, pos)
